@@ -82,4 +82,11 @@ PROPS = {
         ],
         assumptions=["bodies have unique keys per object", "path indices and line/column are in i32 range (the declared field types)"],
     ),
+    "C14": dict(
+        coq_props=['Properties/C14.v'],
+        run_modules=['RunC14.v'],
+        harness_cmd='c14',
+        trusted_base=COMMON_TB + ["Codegen.render_field is a hand model of ExpandedField::render; Codegen.v as a whole (selection expansion, naming, item order) is tied to the implementation by RunGen.gen_corr: the emitted items must be EQUAL to the model's on every generated program", "Schema.schema_of_sdl models the SDL builder; the JSON-format cases compare the implementation's JSON path with the model's SDL path (so they also depend on C07 holding on the implementation)", "rustc's meaning of #[deprecated] / #[deprecated(note = ...)] and of an absent field (use is a compile error)"],
+        assumptions=['`exercises` reports how many cases select no deprecated field at all'],
+    ),
 }
